@@ -145,6 +145,74 @@ class Contract:
         CONTRACTS[qname] = self
 
 
+def _named_items(x, default):
+    if x is None:
+        return []
+    if isinstance(x, dict):
+        return list(x.items())
+    return [(default, x)]
+
+
+def body_frame(qname, extra=None):
+    """modifies clause of an abstract contract: whatever the verified `<qname>#body` contract may write (+ extra)"""
+
+    def m(c):
+        b = CONTRACTS[qname + "#body"]
+        out = dict(b.modifies(c)) if b.modifies else {}
+        if extra is not None:
+            for k, v in extra(c).items():
+                if out.get(k) is ANY or v is ANY:
+                    out[k] = ANY
+                else:
+                    out[k] = list(out.get(k, [])) + list(v)
+        return out
+
+    return m
+
+
+def add_refinements(skip=None, defs=None):
+    """For every pair (abstract trusted contract X used by the callers, X#body verified against the source) register
+    the refinement check X#refines: under the preconditions of both, whatever X#body allows (result, post-state, frame,
+    exceptions) must be allowed by X. The "body" of X#refines is a single use of X#body's contract (see Verifier.run_all),
+    so the obligations are X's postconditions / frame / exception clauses proved from X#body's. `skip` maps qnames that
+    are exempt to the reason (reported by the driver)."""
+    import copy
+
+    skip = skip or {}
+    out = []
+    for q in sorted(list(CONTRACTS)):
+        if not q.endswith("#body"):
+            continue
+        base = q[: -len("#body")]
+        a, b = CONTRACTS.get(base), CONTRACTS[q]
+        if a is None or not a.trusted or base in skip:
+            continue
+        r = copy.copy(a)
+        r.qname = base + "#refines"
+        r.trusted = False
+        r.refines = b
+        r.loops, r.at, r.drops, r.locals, r.opaque = {}, {}, (), {}, {}
+        r.props = tuple(b.props)
+        r.tier = b.tier
+        r.params = dict(b.params)
+        r.entry_facts = b.entry_facts
+        r.exit_facts = (defs or {}).get(base)
+
+        def req(c, a=a, b=b):
+            d = {}
+            for tag, cx in (("abstract", a), ("body", b)):
+                if cx.requires is not None:
+                    for nm, g in _named_items(cx.requires(c), "requires"):
+                        d[tag + "." + nm] = g
+            return d
+
+        r.requires = req
+        r.note = "refinement: every behaviour allowed by %s (verified against the source) is allowed by the abstract contract the callers use; the preconditions of %s are assumed here (section 0.5: invariants the call sites assume)" % (q, q)
+        CONTRACTS[r.qname] = r
+        out.append(r.qname)
+    return out
+
+
 class Loop:
     def __init__(self, inv=None, modifies=None, decreases=None, lemmas=None):
         self.lemmas = lemmas  # fn(c, L, phase) -> [Fact]; phase in start|end|break|exit
